@@ -36,7 +36,7 @@ func runC04(cases string, res *Result) {
 		if stream != "exhaustive" {
 			res.sample(map[string]interface{}{"stream": stream, "src": hx(src), "model_tokens": c["toks"], "model_out": c["out"]}, 10)
 		}
-		if stream == "verbatim" {
+		if stream == "verbatim" || stream == "literal-in-construct" {
 			runVerbatim(c, src, res)
 			return
 		}
